@@ -1,9 +1,9 @@
 CONSTANTS
   NameSet = {"a", "b"}
   Depth = 2
-  MaxLinks = 0
+  MaxLinks = 1
   MaxData = 1
-  MaxOdd = 1
+  MaxOdd = 0
 SPECIFICATION Spec
 VIEW View
 INVARIANTS WellFormedTree CheckingLaws ActingLaws
